@@ -461,6 +461,11 @@ EXTRA = {
            'satisfy the first-order optimality condition of the proximal '
            'problem (sub-gradient intervals at kinks, normal cones for '
            'projections).',
+    'C08': ' Evaluated tier R5: Fenchel-Young equality at the gradient, '
+           'biconjugate values and the Moreau decomposition of concrete '
+           'functionals at designated points on weighted model spaces.',
+    'C10': ' Evaluated tier R3: proximals and default operators called '
+           'with out aliased to the input on model spaces.',
     'C09': ' Evaluated tier R6: gradient(x) and derivative(x)(d) of concrete '
            'and derived functionals equal the symbolic differential of the '
            'evaluated value divided by the weights.',
